@@ -491,7 +491,21 @@ pub fn check(prop: &str, tier: &str, seed: u64, model: &str, outdir: &str, corpu
         ord_b.sort_by(|&i, &j| lines[i].cmp(&lines[j]).then(i.cmp(&j)));
         let ord_c: Vec<usize> = (0..lines.len()).rev().collect();
         let mut pending: Vec<(usize, Vec<String>)> = vec![]; // (index into mism, that child's earlier requests)
-        for ord in [ord_a, ord_b, ord_c] {
+        // load balance: a sorted order puts all the slow requests of one function into one child's
+        // chunk; deal blocks of 512 consecutive requests round-robin to the children instead
+        // (adjacency inside a block is what the pass is for)
+        let deal = |ord: Vec<usize>| -> Vec<usize> {
+            let j = jobs.max(1);
+            let blocks: Vec<&[usize]> = ord.chunks(512).collect();
+            let mut out = Vec::with_capacity(ord.len());
+            for c in 0..j {
+                for b in blocks.iter().skip(c).step_by(j) {
+                    out.extend_from_slice(b);
+                }
+            }
+            out
+        };
+        for ord in [deal(ord_a), deal(ord_b), ord_c] {
             let permuted: Vec<String> = ord.iter().map(|&i| lines[i].clone()).collect();
             let alt = run_impl(&permuted, jobs);
             order_evals += permuted.len();
